@@ -78,6 +78,7 @@ func (e *extractor) extractAll() []Fact {
 	add("storePrefixes", "List (String × String × Nat)", e.storePrefixes())
 
 	wall, rnd, gos, maps, convs := e.determinismScan()
+	add("mapRangeExits", "List (String × String × String)", e.mapRangeExits())
 	add("wallClockSites", tPairList, wall)
 	add("randSites", tPairList, rnd)
 	add("goStmtSites", tPairList, gos)
@@ -974,6 +975,73 @@ func (e *extractor) determinismScan() (wall, rnd, gos, maps, convs List) {
 	}
 	return sortedTuples(dedupTuples(ws)), sortedTuples(dedupTuples(rs)), sortedTuples(dedupTuples(gs)),
 		sortedTuples(dedupTuples(ms)), sortedTuples(cs) // conversions keep multiplicity
+}
+
+// mapRangeExits lists, for every range-over-map loop of the consensus path, the ways its body leaves the
+// loop early: each return statement is described by the package-level Err* variables it mentions (sorted,
+// "+"-joined; "-" when none), break/goto/panic by their keyword. A loop over a map whose early exits are all
+// the same error is order independent in its result code; two different exits make the result depend on the
+// iteration order.
+func (e *extractor) mapRangeExits() List {
+	var out []Tuple
+	for _, fi := range e.files {
+		if !consensusPath(fi.rel) {
+			continue
+		}
+		info := fi.pkg.TypesInfo
+		walkFuncs(fi, func(encl string, n ast.Node) bool {
+			rs, ok := n.(*ast.RangeStmt)
+			if !ok {
+				return true
+			}
+			t := info.TypeOf(rs.X)
+			if t == nil {
+				return true
+			}
+			if _, ok := t.Underlying().(*types.Map); !ok {
+				return true
+			}
+			ast.Inspect(rs.Body, func(m ast.Node) bool {
+				switch y := m.(type) {
+				case *ast.FuncLit:
+					return false
+				case *ast.ReturnStmt:
+					names := map[string]bool{}
+					for _, r := range y.Results {
+						ast.Inspect(r, func(k ast.Node) bool {
+							if id, ok := k.(*ast.Ident); ok && strings.HasPrefix(id.Name, "Err") {
+								if v, ok := info.Uses[id].(*types.Var); ok && v.Parent() == v.Pkg().Scope() {
+									names[id.Name] = true
+								}
+							}
+							return true
+						})
+					}
+					var ns []string
+					for k := range names {
+						ns = append(ns, k)
+					}
+					sort.Strings(ns)
+					d := strings.Join(ns, "+")
+					if d == "" {
+						d = "-"
+					}
+					out = append(out, Tuple{fi.rel, encl, "return " + d})
+				case *ast.BranchStmt:
+					if y.Tok == token.BREAK || y.Tok == token.GOTO {
+						out = append(out, Tuple{fi.rel, encl, y.Tok.String()})
+					}
+				case *ast.CallExpr:
+					if id, ok := y.Fun.(*ast.Ident); ok && id.Name == "panic" {
+						out = append(out, Tuple{fi.rel, encl, "panic"})
+					}
+				}
+				return true
+			})
+			return true
+		})
+	}
+	return sortedTuples(dedupTuples(out))
 }
 
 // ---------------------------------------------------------------------------
